@@ -1,5 +1,49 @@
-import XlVerif.Base
-/-! Driver for C05 (stub: replaced when the property's model is built). -/
+import XlVerif.Drv.EvalWire
+import XlVerif.Model.C04
+import XlVerif.Spec.C04
+import XlVerif.Drv.C04
+/-! Driver for C05.
+  `C05 sched <fuel> <cells> <ranges> <names> <evaluators> <sched>`
+      sched : `<evaluator index>~<addr>` joined by `|`
+      → `vals=<result>|…  spec=<result>|…  frame=<1|0>  stacks=<1|0>  size=<n>  stored=<addr>~<value>|…`
+    `vals`  : the results of `Model.C04.Sys.runSched` (evaluators sharing the mutable model)
+    `spec`  : `Spec.C04.value` of each cell on the initial workbook
+    `frame` : 1 iff the inputs (`erase`) of the model are unchanged
+    `stacks`: 1 iff every evaluator's in-progress stack is empty afterwards
+    `size`  : `Sys.size` of the retained state;  `stored` : every cell's stored value afterwards
+  `C05 rounds <fuel> <cells> <ranges> <names> <evaluators> <sched> <n>` → `size1=<n>  sizeN=<n>`
+  `C05 hists …` = `C04 hists …` (schedules with `set_cell_value` calls in between: evaluators keep nothing
+    between calls, so the single-evaluator history machine of C04 applies)
+-/
 namespace XlVerif.Drv.C05
-def handle (_fields : List String) : String := "error=not-implemented"
+open XlVerif XlVerif.Model.Evaluator XlVerif.Model.C04 XlVerif.Drv.EvalWire
+
+def schedOfWire? (w : String) : Option (List (Nat × Addr)) :=
+  (splitNE w "|").mapM fun x =>
+    match x.splitOn "~" with
+    | [e, a] => do pure ((← e.toNat?), (← parseText? a))
+    | _ => none
+
+def handle (fields : List String) : String :=
+  match fields with
+  | ["sched", fuel, cells, ranges, names, k, sched] =>
+    (match fuel.toNat?, modelOfWire? cells ranges names, k.toNat?, schedOfWire? sched with
+     | some n, some m, some k, some s =>
+       let out := Sys.runSched stdSem n (Sys.init m k) s
+       let spec := s.map fun p => Spec.C04.value Gen.maxEmpty stdSem n m p.2
+       let frame := reprStr (erase out.1.model) == reprStr (erase m)
+       let stacks := out.1.stacks.all (·.isEmpty) && out.1.stacks.length == k
+       kv [("vals", "|".intercalate (out.2.map resW)), ("spec", "|".intercalate (spec.map resW)),
+           ("frame", if frame then "1" else "0"), ("stacks", if stacks then "1" else "0"),
+           ("size", toString out.1.size),
+           ("stored", "|".intercalate (out.1.model.cells.map fun p => textWire p.1 ++ "~" ++ p.2.value.wire))]
+     | _, _, _, _ => "error=bad-args")
+  | ["rounds", fuel, cells, ranges, names, k, sched, cnt] =>
+    (match fuel.toNat?, modelOfWire? cells ranges names, k.toNat?, schedOfWire? sched, cnt.toNat? with
+     | some n, some m, some k, some s, some c =>
+       kv [("size1", toString (Sys.rounds stdSem n s 1 (Sys.init m k)).size),
+           ("sizeN", toString (Sys.rounds stdSem n s c (Sys.init m k)).size)]
+     | _, _, _, _, _ => "error=bad-args")
+  | "hists" :: rest => XlVerif.Drv.C04.handle ("hists" :: rest)
+  | _ => "error=bad-request"
 end XlVerif.Drv.C05
